@@ -41,8 +41,9 @@ ASSUMPTIONS = [
     "solve_assignment: no R_trace (CPython str-set order decides ties); the network is rebuilt in Lean in a fixed numbering",
     "the implementation's pooled dict is split over parallel arcs cheapest-first by the harness before the verified "
     "checker runs (any other split costs at least as much, so verdicts on capacity/balance/optimality are unaffected)",
-    "excluded region: negative-cost cycles, negative capacities, negative demand, non-integer data, and costs beyond "
-    "2**53 for network_simplex (its contract types costs as float and it prices in doubles)",
+    "excluded region: negative-cost cycles, negative capacities, negative demand, non-integer data; network_simplex "
+    "prices in doubles: instances with 4*(n+1)*sum|cost| >= 2**53 reach it only as common instances of min_cost_flow, "
+    "and its failures there carry the class suffix cost_sum_beyond_2p53 (recorded finding)",
     "ssp_certifies is proved (s-t and transshipment form: without a negative-cost cycle the certified SSP model never "
     "ends without an answer; ssp_sound: every answer is right); the driver runs that certifying model, so 'no certified "
     "answer' on an explored input would mean a negative cycle slipped through the generator - an infrastructure error",
@@ -923,8 +924,8 @@ def evaluate(cases, ctx=None, twins_too=True):
             order = _set_order(fc.graph_dict(c["graph"]), fc.dec(c["source"]), fc.dec(c["sink"]))
             idx, raw = mcf_instance(c, order)
             s, t, d = idx[fc.dec(c["source"])], idx[fc.dec(c["sink"])], c["demand"]
-            # every s-t instance also goes to network_simplex (common instances) unless its costs leave the range
-            # in which double pricing is exact (recorded separately, see proposed_findings: cost_sum_beyond_2p53)
+            # every s-t instance also goes to network_simplex (common instances); where 4*(n+1)*sum|cost| >= 2**53 its
+            # double pricing is inexact: failures there carry the class suffix cost_sum_beyond_2p53 (known finding)
             if s != t and d >= 0 and twins_too:
                 sup = [0] * len(idx)
                 sup[s] += d
